@@ -23,7 +23,7 @@ def scanner_bounds(g, n, maxnul, refills=0):
     d = f.get('chain_depth', 0)
     return {
         'chain': d + 2,
-        'match': n + 3 + refills,
+        'match': n + 3,
         'goto_match': maxnul + 1 + refills,
         'goto_find_action': 2 + maxnul,
         'goto_find_rule': n + 3,
@@ -123,8 +123,8 @@ def e3_jobs(ctx, spec, cfg, ms, bss, tokens=2, witness_first=True, timeout=900, 
                 src = os.path.join(wd, 'e3_m%d_b%d%s.c' % (m, bs, '_w' if w else ''))
                 with open(src, 'w') as fh:
                     fh.write(H.e3_harness(g, cfg, spec, m, bs, tokens=tokens, witness=w, maxnul=min(maxnul, m)))
-                b = scanner_bounds(g, m, min(maxnul, m), refills=m + 1)
-                b['grow'] = 4
+                b = scanner_bounds(g, m, min(maxnul, m), refills=m)
+                b['grow'] = 3
                 b['move'] = m + 2
                 j = cbmc.Job('e3_%s_%s_m%d_b%d%s' % (spec.name, cfg.name, m, bs, '_w' if w else ''),
                              wd, [src], b, includes=[wd, H.HDIR], harness_bound=None, timeout=timeout,
